@@ -302,6 +302,9 @@ def cls_features(C: dict) -> list:
             fs.append('init-false')
         if f['d']['k'] == 'fac':
             fs.append('factory')
+    pos = [f for f in C['fs'] if f['kw'] == 'F' and f.get('init', 'T') == 'T']
+    if any(f['ex'] == 'T' and any(g['ex'] == 'F' for g in pos[i + 1:]) for i, f in enumerate(pos)):
+        fs.append('excluded-positional-field-before-a-written-one')      # (tuple output then shifts the later values)
     return sorted(set(fs))
 
 
